@@ -1,6 +1,7 @@
 import PicoProofs.EndToEnd
 import PicoProofs.VarintNonMinimal
 import PicoProofs.SpecPerm
+import PicoProofs.SpecForward
 import PicoProofs.GoTieApi
 import PicoProofs.Tie
 /-
@@ -102,6 +103,17 @@ example : Spec.Perm.PermI [⟨[⟨1, .scalar .int32, 0, 0, false, 0⟩, ⟨2, .s
   Spec.Perm.PermI.swap [] _ _ [] (by
     show Spec.Perm.IndepK 0 1 _ _
     exact ⟨by decide, Or.inl rfl⟩)
+
+/-- non-minimal TAGS (and any other spelling of a tag): an input decodes to what its records decode
+to, so re-spelling every tag minimally — the value bytes of every record left as they are — changes
+nothing, whatever the message type and the start value; in particular two inputs that differ only
+in how their tags are spelled decode alike -/
+theorem C02_tag_spelling_irrelevant (S : Schema) (id : Nat) (n : Nat) (b : Bytes) (rs : List Spec.Record)
+    (hr : Spec.records n b = some rs) (m : Val) :
+    Spec.specUnmarshal S id (rs.map fun r => Wire.tag r.num r.wire ++ r.raw).flatten m
+      = Spec.specUnmarshal S id b m :=
+  Spec.specUnmarshal_same_records S id _ n _ b rs m
+    (Spec.records_retag rs (Spec.selfParsing_of_records n b rs hr)) hr
 
 /-- into a fresh message (the usual call), no hypothesis on anything but the schema -/
 theorem C02_unmarshal_fresh_is_spec (S : Schema) (hS : S.supported = true) (id : Nat) (data : Bytes) :
